@@ -29,7 +29,7 @@ def run(ctx):
     base = dict(K=8, MaxCps=20, DevDeleteNoBump=False, Mode="free", MaxDepth=3, Warm=0, KidConfigs=kidset([SMALL]),
                 Nodes={0}, Dirs={"Both"}, Filts={"none"}, Masks={"All"}, Pages={1, 2},
                 ModKinds={"AddNode", "AddRef", "DelNode", "DelRef", "AddNodeNoParent", "DelNodeMissing"},
-                RefTypes={"OR", "HC"}, NextCps={-1}, Seeds={0})
+                RefTypes={"OR", "HC"}, NextCps={-1}, Seeds={0}, Script=[], Rels={True, False})
     allb = dict(Nodes={0, 1, 9}, Dirs={"Both", "Forward", "Inverse"}, Filts={"none", "OR", "HC", "HIER"},
                 Masks={"All", "Object", "Variable"}, Pages={0, 1, 2, 3})
 
@@ -73,7 +73,7 @@ def run(ctx):
     if not q:
         h = gen("interleavings4", dict(base, MaxDepth=4, Pages={1}, RefTypes={"HC"}, ModKinds={"AddNode", "AddRef", "DelNode", "DelRef"}))
         ninter += len(h)
-        add(take(h, 20000, ctx.seed))
+        add(take(h, 8000, ctx.seed))
     # 4. longer random behaviours over the whole input space
     n = 150 if q else 2000
     seeds = {(int(ctx.seed) * 7919 + i * 104729) % 65537 for i in range(n)}
@@ -83,6 +83,18 @@ def run(ctx):
     h = gen("cap", dict(base, Warm=21 if q else 23, MaxDepth=23 if q else 25, ModKinds={"DelNode"}, NextCps={0, 1, 2, 3, 20, 21, 22, 23, 24}))
     ncap = len(h)
     add(take(h, 300 if q else 4000, ctx.seed))
+    # 6. several live continuation points with address space changes between / after their creation, then BrowseNext on the older and
+    #    the newer ones: Browse, (Browse | change) x 2, (Browse | BrowseNext [| change]), BrowseNext [, BrowseNext]; never sampled
+    if q:
+        script = [{"Browse"}, {"Browse", "Modify"}, {"Browse", "Modify"}, {"Browse", "Next"}, {"Next"}]
+        h = gen("stale", dict(base, Mode="script", Script=script, MaxDepth=len(script), Pages={1}, RefTypes={"HC"},
+                              ModKinds={"AddNode", "DelNode"}, Rels={False}))
+    else:
+        script = [{"Browse"}, {"Browse", "Modify"}, {"Browse", "Modify"}, {"Browse", "Next", "Modify"}, {"Next"}, {"Next"}]
+        h = gen("stale", dict(base, Mode="script", Script=script, MaxDepth=len(script), Pages={1}, RefTypes={"HC"},
+                              ModKinds={"AddNode", "AddRef", "DelNode", "DelRef"}, Rels={False}))
+    nstale = len(h)
+    add(h)
     ctx.cov["exhaustive"] = not q
 
     if ctx.replay:
@@ -127,11 +139,13 @@ def run(ctx):
                        "missing node with 3 directions x 4 reference filters x 3 class masks x page sizes 0..3 on generated folders, followed "
                        "to the end of the chain; (b) every interleaving of Browse / BrowseNext on any continuation point ever issued or a bogus "
                        "one, with and without release / modifications up to the depth bound; (c) pseudo random behaviours of 10 calls (one per seed, derived from VERIF_SEED); (d) more open "
-                       "continuation points than the session keeps. Each case ends with BrowseNext on every continuation point ever issued. "
+                       "continuation points than the session keeps; (e) every behaviour of the shape Browse, (Browse | change) x 2, (Browse | BrowseNext), "
+                       "BrowseNext: several live continuation points with a change between or after their creation, then use of an older or the "
+                       "newer one. Each case ends with BrowseNext on every continuation point ever issued. "
                        "distinct_nontrivial = distinct cases in which at least one continuation point was issued")
     ctx.notes["steps_replayed"] = nsteps
     ctx.notes["calls_by_kind"] = kinds
-    ctx.notes["generated"] = {"chains": nchains, "interleavings": ninter, "cap": ncap}
+    ctx.notes["generated"] = {"chains": nchains, "interleavings": ninter, "cap": ncap, "stale": nstale}
     ctx.notes["max_continuation_points_issued_in_one_session"] = maxopen
     ctx.notes["drift"] = {"cases_with_L1_mismatch": len(drift), "first": drift[:3]}
     ctx.assumptions += [
